@@ -166,6 +166,23 @@ func (c *cctx) evalIdent(id *ast.Ident) cval {
 		if g, ok := c.st.ghosts[name]; ok {
 			return cval{g, x.ghostTypes[name]}
 		}
+		if !c.pos.IsValid() {
+			// entry/exit context: parameters and results win over shadowing locals
+			for i, rn := range x.resNames {
+				if rn == name {
+					if val, ok := c.st.vars[x.results[i]]; ok {
+						return cval{val, x.results[i].Type()}
+					}
+				}
+			}
+			for _, p := range append([]*types.Var{x.recv}, x.params...) {
+				if p != nil && p.Name() == name {
+					if val, ok := c.st.vars[p]; ok {
+						return cval{val, p.Type()}
+					}
+				}
+			}
+		}
 		if v, ok := c.lookupVar(name); ok {
 			return cval{c.st.vars[v], v.Type()}
 		}
